@@ -88,7 +88,22 @@ def rule_wr_ret(cx, rep, port):
             continue
         rets = [x.ast for x, lab in g.exit.pred if lab == 'return']
         bad = [r for r in rets if r.value is None or not _is_boolish(r.value, fd)]
-        if bad:
+        # JS: a sink that hands back what the output *stream's* write() returned reports backpressure ("buffer full, wait for drain"),
+        # not acceptance: the query stops silently once the stream's buffer has filled up
+        backp = []
+        if port == 'js' and c in sinks:
+            for r in rets:
+                v_ = r.value
+                while isinstance(v_, ast.Await):
+                    v_ = v_.value
+                if isinstance(v_, ast.Name):
+                    ds_ = [n_ for n_ in walk_no_nested(fd) if isinstance(n_, ast.Assign) and is_name(n_.targets[0], v_.id)]
+                    v_ = ds_[0].value if len(ds_) == 1 else v_
+                if isinstance(v_, ast.Call) and (call_name(v_) or '') in ('self.stream.write', 'this.stream.write'):
+                    backp.append(r)
+        if backp:
+            rep.violated(_key(c, 'write'), backp[0], '`{}` returns the result of the output stream\'s write(): false there means "buffer full, wait for drain", so after the first 16 KiB of output the query is told to stop although nothing failed'.format(node_text(backp[0], 80)))
+        elif bad:
             rep.violated(_key(c, 'write'), bad[0], '`{}` does not return a boolean verdict'.format(node_text(bad[0])))
         else:
             rep.holds(_key(c, 'write'), fd, '{} return(s), all boolean verdicts, no fall-through'.format(len(rets)))
